@@ -165,20 +165,26 @@ Theorem C18_nf_coef_roundtrip : forall key others c0 ct,
 Proof. exact nf_coef_roundtrip. Qed.
 Print Assumptions C18_nf_coef_roundtrip.
 
-(* Span / SI power range: a library with ONE Span (SI) entry *)
-Theorem C18_range_roundtrip_single : forall key lk dk dothers others a b c,
-  String.eqb lk dk = false -> jget lk others = None -> jget dk others = None -> jget key dothers = None ->
-  let doc := dothers ++ [(key, JArr [JObj (others ++ [(lk, JArr [a; b; c])])])] in
-  exists doc', on_entries key (range_entry lk dk) doc = Ok doc' /\ back_range_first key lk dk doc' = Ok doc.
-Proof. exact range_roundtrip_single. Qed.
-Print Assumptions C18_range_roundtrip_single.
+(* Span / SI power ranges: every Span entry and every SI entry of a library (range as the last key of the entry) *)
+Theorem C18_range_roundtrip : forall doc spans sis,
+  jget "Span" doc = Some (JArr spans) -> jget "SI" doc = Some (JArr sis) ->
+  Forall (range_entry_ok "delta_power_range_db" "delta_power_range_dict_db") spans ->
+  Forall (range_entry_ok "power_range_db" "power_range_dict_db") sis ->
+  exists doc', convert_delta_power_range doc = Ok doc' /\ convert_back_delta_power_range doc' = Ok doc.
+Proof. exact range_roundtrip. Qed.
+Print Assumptions C18_range_roundtrip.
 
-(* ... and it is FALSE of the faithful model with a second entry (finding F15) *)
-Theorem C18_range_second_entry_refuted :
-  exists doc doc' doc'', convert_delta_power_range doc = Ok doc' /\ convert_back_delta_power_range doc' = Ok doc''
-                         /\ doc'' <> doc.
-Proof. exact range_second_entry_refuted. Qed.
-Print Assumptions C18_range_second_entry_refuted.
+Example ex_range :
+  let si tv := JObj ([("type_variety"%string, JStr tv); ("power_dbm"%string, JNum 0 0)] ++
+                     [("power_range_db"%string, JArr [JNum 0 0; JNum 0 0; JNum 1 0])]) in
+  let doc := [("Span"%string, JArr []); ("SI"%string, JArr [si "default"%string; si "lband"%string])] in
+  Forall (range_entry_ok "power_range_db" "power_range_dict_db") [si "default"%string; si "lband"%string] /\
+  exists doc', convert_delta_power_range doc = Ok doc' /\ convert_back_delta_power_range doc' = Ok doc.
+Proof.
+  cbn zeta. split.
+  - repeat constructor; eexists _, _, _, _; repeat split; reflexivity.
+  - eexists. split; vm_compute; reflexivity.
+Qed.
 
 (* RamanFiber raman_efficiency: the pair is not a round trip and breaks idempotence (finding F16) *)
 Theorem C18_raman_efficiency_refuted :
@@ -260,6 +266,191 @@ Definition ex_spectrum : json :=
 Example ex_spectrum_ok : legacy_nulls_ok ex_spectrum = true /\ doc_ok (prec SPECTRUM_NMSP) ex_spectrum = true.
 Proof. vm_compute. repeat split. Qed.
 
+
+(* ================= whole documents: equipment libraries and topologies (composition) ================= *)
+(* Vocabulary (Proofs/Yang.v):
+     nmap o                 o with none_to_empty applied to every value
+     ET f h e               entry e: f e = Ok e1, f (n2e e) = Ok (n2e e1), h e1 = Ok e   (forward step commutes with
+                            none_to_empty and is undone by the back step)
+     KV key f h top         the value of key (when present) is a list of entries satisfying ET f h
+     eqpt_canonical top     unique keys; an equipment document for the dispatch; RamanFiber entries without the legacy
+                            raman_efficiency block (F16 is open); Span / SI entries with their range list as last key;
+                            amplifier entries with nf_coef (if any) as last key; Roadm entries with a type_variety;
+                            no "gnpy-eqpt-config:" prefix in strings
+     ETS e                  topology element on which the structural chain commutes with none_to_empty and is undone
+     PT ty p p1             the same for the params object of an element of type ty                              *)
+Theorem C18_y2l_l2y_equipment : forall top t2, eqpt_canonical top ->
+  chain eqpt_forth top = Ok t2 ->
+  legacy_nulls_ok (JObj t2) = true -> doc_ok (prec EQPT_NMSP) (JObj t2) = true ->
+  exists y, legacy_to_yang (JObj top) = Ok y /\ yang_to_legacy y = Ok (JObj top).
+Proof. exact y2l_l2y_equipment. Qed.
+Print Assumptions C18_y2l_l2y_equipment.
+
+(* the entry shapes eqpt_canonical asks for *)
+Theorem C18_ET_range : forall lk dk e, String.eqb lk dk = false -> range_entry_ok lk dk e ->
+  ET (wrapf (range_entry lk dk)) (back_range_entry lk dk) e.
+Proof. exact ET_range. Qed.
+Print Assumptions C18_ET_range.
+Theorem C18_ET_edfa : forall e, edfa_entry_ok e -> ET (wrapf (nf_forth "nf_coef")) (wrapf (nf_back "nf_coef")) e.
+Proof. exact ET_edfa. Qed.
+Print Assumptions C18_ET_edfa.
+Theorem C18_ET_raman_plain : forall eo, jget K_raman_eff eo = None ->
+  ET (wrapf raman_eff_entry) (wrapf back_raman_eff_entry) (JObj eo).
+Proof. exact ET_raman_plain. Qed.
+Print Assumptions C18_ET_raman_plain.
+
+(* topology: t2 is the structurally converted document (the chain without remove_null_region_city, which never
+   fires after none_to_empty) *)
+Theorem C18_y2l_l2y_topology : forall top t2 es,
+  jget K_elements top = Some (JArr es) -> Forall ETS es ->
+  chain topo_struct top = Ok t2 ->
+  legacy_nulls_ok (JObj t2) = true -> doc_ok (prec TOPO_NMSP) (JObj t2) = true ->
+  remove_ns "gnpy-network-topology:" (JObj top) = JObj top ->
+  exists y, legacy_to_yang (JObj top) = Ok y /\ yang_to_legacy y = Ok (JObj top).
+Proof. exact y2l_l2y_topology. Qed.
+Print Assumptions C18_y2l_l2y_topology.
+
+(* which elements satisfy ETS: any element without params ... *)
+Theorem C18_ETS_no_params : forall eo ty,
+  jget K_type eo = Some (JStr ty) -> jget K_params eo = None -> op_ok eo -> md_ok eo -> ETS (JObj eo).
+Proof. exact ETS_no_params. Qed.
+Print Assumptions C18_ETS_no_params.
+(* ... and any element whose params object satisfies PT *)
+Theorem C18_ETS_of_params : forall eo ty p p1,
+  has_tp eo ty p -> op_ok eo -> md_ok eo -> PT ty p p1 -> ETS (JObj eo).
+Proof. exact ETS_of_params. Qed.
+Print Assumptions C18_ETS_of_params.
+(* params of a non-ROADM element: anything, then the optional per-frequency loss block, then the optional Raman block *)
+Theorem C18_PT_fiber : forall ty o ol orr, is_roadm ty = false -> fiber_params_ok o ol orr ->
+  PT ty (o ++ lblk ol ++ rblk orr) (o ++ lout ol ++ rout orr).
+Proof. exact PT_fiber. Qed.
+Print Assumptions C18_PT_fiber.
+(* params of a ROADM: anything, then the per-degree power targets (pch, psd, psw: each optional), then the optional
+   per-degree design bands *)
+Theorem C18_PT_roadm : forall ty o o1 o2 o3 ob, is_roadm ty = true -> roadm_params_ok o o1 o2 o3 ob ->
+  PT ty (o ++ dblocks o1 o2 o3 ++ bblk ob) (o ++ dout o1 o2 o3 ++ bout ob).
+Proof. exact PT_roadm. Qed.
+Print Assumptions C18_PT_roadm.
+
+(* non-vacuity: a library with two amplifiers (one openroadm with nf_coef), two SI entries, ... *)
+Definition ex_edfa1 : obj := [("type_variety"%string, JStr "std_medium_gain"); ("type_def"%string, JStr "variable_gain");
+   ("gain_flatmax"%string, JNum (260) 1); ("gain_min"%string, JNum (150) 1); ("p_max"%string, JNum (230) 1);
+   ("nf_min"%string, JNum (60) 1); ("nf_max"%string, JNum (100) 1); ("out_voa_auto"%string, JBool false); ("allowed_for_design"%string, JBool true)].
+Definition ex_edfa2_others : obj := [("type_variety"%string, JStr "openroadm_ila"); ("type_def"%string, JStr "openroadm");
+   ("gain_flatmax"%string, JNum (270) 1); ("gain_min"%string, JNum (0) 1); ("p_max"%string, JNum (220) 1); ("allowed_for_design"%string, JBool false)].
+Definition ex_edfa2 : obj := ex_edfa2_others ++ [("nf_coef"%string, JArr [JNum (-8104) 7; JNum (-6221) 5; JNum (-5889) 4; JNum 3762 2])].
+Definition ex_span_others : obj := [("power_mode"%string, JBool true); ("max_length"%string, JNum (1500) 1); ("length_units"%string, JStr "km");
+   ("max_loss"%string, JNum (280) 1); ("padding"%string, JNum (100) 1); ("EOL"%string, JNum (0) 1); ("con_in"%string, JNum (0) 1); ("con_out"%string, JNum (0) 1)].
+Definition ex_span : obj := ex_span_others ++ [(LKS, JArr [JNum (-20) 1; JNum (30) 1; JNum 5 1])].
+Definition ex_si_others (tv : string) : obj := [("type_variety"%string, JStr tv); ("f_min"%string, JNum 1913000000000000 1); ("f_max"%string, JNum 1951000000000000 1);
+   ("baud_rate"%string, JNum 320000000000 1); ("spacing"%string, JNum 500000000000 1); ("power_dbm"%string, JNum (0) 1); ("roll_off"%string, JNum 15 2);
+   ("tx_osnr"%string, JNum (400) 1); ("sys_margins"%string, JNum (20) 1)].
+Definition ex_si (tv : string) : obj := ex_si_others tv ++ [(LKI, JArr [JNum (0) 1; JNum (0) 1; JNum (10) 1])].
+Definition ex_eqpt : obj :=
+  [("Edfa"%string, JArr [JObj ex_edfa1; JObj ex_edfa2]);
+   ("Fiber"%string, JArr [JObj [("type_variety"%string, JStr "SSMF"); ("dispersion"%string, JNum 167 7); ("effective_area"%string, JNum 83 12); ("pmd_coef"%string, JNum 1265 18)]]);
+   ("Span"%string, JArr [JObj ex_span]);
+   ("Roadm"%string, JArr [JObj [("type_variety"%string, JStr "default"); ("target_pch_out_db"%string, JNum (-200) 1); ("add_drop_osnr"%string, JNum (380) 1);
+                               ("restrictions"%string, JObj [("preamp_variety_list"%string, JArr []); ("booster_variety_list"%string, JArr [])])]]);
+   ("SI"%string, JArr [JObj (ex_si "default"); JObj (ex_si "lband")]);
+   ("Transceiver"%string, JArr [JObj [("type_variety"%string, JStr "vendorA_trx-type1"); ("frequency"%string, JObj [("min"%string, JNum 1913500000000000 1); ("max"%string, JNum 1961000000000000 1)]);
+      ("mode"%string, JArr [JObj [("format"%string, JStr "mode 1"); ("baud_rate"%string, JNum 320000000000 1); ("OSNR"%string, JNum (110) 1); ("bit_rate"%string, JNum 1000000000000 1);
+                                  ("roll_off"%string, JNull); ("tx_osnr"%string, JNum (400) 1); ("min_spacing"%string, JNum 375000000000 1); ("cost"%string, JNum (10) 1)]])]])].
+
+Lemma ex_eqpt_canonical : eqpt_canonical ex_eqpt.
+Proof.
+  constructor.
+  - repeat constructor; cbn; intuition discriminate.
+  - split; reflexivity.
+  - reflexivity.
+  - exact I.
+  - unfold KV. cbn [jget ex_eqpt String.eqb Ascii.eqb Bool.eqb]. eexists; split; [reflexivity|].
+    repeat constructor. apply ET_range; [reflexivity|]. exists ex_span_others, (JNum (-20) 1), (JNum 30 1), (JNum 5 1). repeat split.
+  - unfold KV. cbn [jget ex_eqpt String.eqb Ascii.eqb Bool.eqb]. eexists; split; [reflexivity|].
+    repeat constructor; (apply ET_range; [reflexivity|]);
+      [exists (ex_si_others "default"), (JNum 0 1), (JNum 0 1), (JNum 10 1)|exists (ex_si_others "lband"), (JNum 0 1), (JNum 0 1), (JNum 10 1)]; repeat split.
+  - unfold KV. cbn [jget ex_eqpt String.eqb Ascii.eqb Bool.eqb]. eexists; split; [reflexivity|].
+    repeat constructor; apply ET_edfa.
+    + exists ex_edfa1. split; [reflexivity|]. now left.
+    + exists ex_edfa2. split; [reflexivity|]. right. exists ex_edfa2_others, (-8104), 7%nat, [JNum (-6221) 5; JNum (-5889) 4; JNum 3762 2]. split; reflexivity.
+  - unfold roadm_entries_ok. cbn [jget ex_eqpt K_roadm String.eqb Ascii.eqb Bool.eqb]. eexists; split; [reflexivity|].
+    repeat constructor. eexists; split; reflexivity.
+  - reflexivity.
+Qed.
+Example ex_eqpt_roundtrip : exists y, legacy_to_yang (JObj ex_eqpt) = Ok y /\ yang_to_legacy y = Ok (JObj ex_eqpt).
+Proof.
+  destruct (chain eqpt_forth ex_eqpt) as [t2|] eqn:E; [|vm_compute in E; discriminate].
+  apply (y2l_l2y_equipment ex_eqpt t2 ex_eqpt_canonical E); vm_compute in E; injection E as <-; vm_compute; reflexivity.
+Qed.
+
+(* non-vacuity: a topology with a transceiver, a ROADM with pch and psd per-degree targets and per-degree design bands
+   (city null), an amplifier with null settings, a fibre with per-frequency loss, lumped loss and Raman coefficients,
+   a Raman fibre with a pump *)
+Definition ex_md (city : json) : json :=
+  JObj [("location"%string, JObj [("city"%string, city); ("region"%string, JStr ""); ("latitude"%string, JNum 485 1); ("longitude"%string, JNum (-35) 1)])].
+Definition ex_trx : obj := [("uid"%string, JStr "trx A"); ("type"%string, JStr "Transceiver"); ("metadata"%string, ex_md (JStr "A"))].
+Definition ex_band : json := JArr [JObj [("f_min"%string, JNum 1913000000000000 1); ("f_max"%string, JNum 1961000000000000 1); ("spacing"%string, JNum 500000000000 1)]].
+Definition ex_roadm_o : obj := [("target_pch_out_db"%string, JNum (-200) 1);
+   ("restrictions"%string, JObj [("preamp_variety_list"%string, JArr []); ("booster_variety_list"%string, JArr [JStr "std_medium_gain"])])].
+Definition ex_o1 : option obj := Some [("east edfa in A to B"%string, JNum (-185) 1); ("east edfa in A to C"%string, JNum (-1925) 2)].
+Definition ex_o2 : option obj := Some [("east edfa in A to D"%string, JNum 312 6)].
+Definition ex_ob : option obj := Some [("east edfa in A to B"%string, ex_band)].
+Definition ex_roadm_p : obj := ex_roadm_o ++ dblocks ex_o1 ex_o2 None ++ bblk ex_ob.
+Definition ex_roadm : obj := [("uid"%string, JStr "roadm A"); ("type"%string, JStr "Roadm"); ("params"%string, JObj ex_roadm_p); ("metadata"%string, ex_md JNull)].
+Definition ex_fiber_o : obj := [("length"%string, JNum 805 1); ("length_units"%string, JStr "km"); ("att_in"%string, JNum 0 1); ("con_in"%string, JNull); ("con_out"%string, JNum 5 1);
+   ("lumped_losses"%string, JArr [JObj [("position"%string, JNum 205 1); ("loss"%string, JNum 15 1)]])].
+Definition ex_ol : option (list json * list json) := Some ([JNum 1860000000000000 1; JNum 1960000000000000 1], [JNum 21 2; JNum 2 1]).
+Definition ex_or : option (json * list json * list json) :=
+  Some (JNum 2061846341127920 1, [JNum 0 1; JNum 12 5; JNum 34 5], [JNum 0 1; JNum 50000000000000 1; JNum 130000000000000 1]).
+Definition ex_fiber_p : obj := ex_fiber_o ++ lblk ex_ol ++ rblk ex_or.
+Definition ex_fiber : obj := [("uid"%string, JStr "fiber AB"); ("type"%string, JStr "Fiber"); ("type_variety"%string, JStr "SSMF"); ("params"%string, JObj ex_fiber_p)].
+Definition ex_fiber2_o : obj := [("length"%string, JNum 20 1); ("loss_coef"%string, JNum 2 1); ("length_units"%string, JStr "km")].
+Definition ex_fiber2 : obj := [("uid"%string, JStr "fiber BA"); ("type"%string, JStr "RamanFiber"); ("type_variety"%string, JStr "SSMF");
+   ("operational"%string, JObj [("temperature"%string, JNum 2830 1); ("raman_pumps"%string, JArr [JObj [("frequency"%string, JNum 2050000000000000 1); ("power"%string, JNum 224403 6);
+                                                                                                   ("propagation_direction"%string, JStr "counterprop")]])]);
+   ("params"%string, JObj (ex_fiber2_o ++ lblk None ++ rblk None))].
+Definition ex_edfa : obj := [("uid"%string, JStr "east edfa in A to B"); ("type"%string, JStr "Edfa"); ("type_variety"%string, JStr "std_medium_gain");
+   ("operational"%string, JObj [("gain_target"%string, JNum 205 1); ("delta_p"%string, JNull); ("tilt_target"%string, JNum 0 1); ("out_voa"%string, JNull)])].
+Definition ex_els : list json := [JObj ex_trx; JObj ex_roadm; JObj ex_edfa; JObj ex_fiber; JObj ex_fiber2].
+Definition ex_topo : obj := [("network_name"%string, JStr "example"); ("elements"%string, JArr ex_els);
+   ("connections"%string, JArr [JObj [("from_node"%string, JStr "trx A"); ("to_node"%string, JStr "roadm A")]])].
+
+Lemma ex_topo_ets : Forall ETS ex_els.
+Proof.
+  repeat constructor.
+  - apply (ETS_no_params ex_trx "Transceiver" eq_refl eq_refl).
+    + split; [exact I|discriminate].
+    + exact I.
+  - apply (ETS_of_params ex_roadm "Roadm" ex_roadm_p (ex_roadm_o ++ dout ex_o1 ex_o2 None ++ bout ex_ob)).
+    + split; reflexivity.
+    + split; [exact I|discriminate].
+    + exact I.
+    + apply PT_roadm; [reflexivity|]. constructor; try reflexivity; try exact I; try (intros lc; discriminate).
+      * split; [discriminate|]. repeat constructor; cbn; intuition discriminate.
+      * split; [discriminate|]. repeat constructor; cbn; intuition discriminate.
+      * split; [discriminate|]. repeat constructor; cbn; intuition discriminate.
+  - apply (ETS_no_params ex_edfa "Edfa" eq_refl eq_refl).
+    + split; [exact I|]. intros v Hv. cbn in Hv. injection Hv as <-. discriminate.
+    + exact I.
+  - apply (ETS_of_params ex_fiber "Fiber" ex_fiber_p (ex_fiber_o ++ lout ex_ol ++ rout ex_or)).
+    + split; reflexivity.
+    + split; [exact I|discriminate].
+    + exact I.
+    + apply PT_fiber; [reflexivity|]. constructor; try reflexivity.
+      * cbn. repeat split; discriminate.
+      * cbn. repeat split; discriminate.
+  - apply (ETS_of_params ex_fiber2 "RamanFiber" (ex_fiber2_o ++ lblk None ++ rblk None) (ex_fiber2_o ++ lout None ++ rout None)).
+    + split; reflexivity.
+    + split; [reflexivity|]. intros v Hv. cbn in Hv. injection Hv as <-. discriminate.
+    + exact I.
+    + apply PT_fiber; [reflexivity|]. constructor; try reflexivity; try exact I. intros lc; discriminate.
+Qed.
+Example ex_topo_roundtrip : exists y, legacy_to_yang (JObj ex_topo) = Ok y /\ yang_to_legacy y = Ok (JObj ex_topo).
+Proof.
+  destruct (chain topo_struct ex_topo) as [t2|] eqn:E; [|vm_compute in E; discriminate].
+  apply (y2l_l2y_topology ex_topo t2 ex_els eq_refl ex_topo_ets E); vm_compute in E; injection E as <-; vm_compute; reflexivity.
+Qed.
+
 (* ================= aliases (other_name) ================= *)
 (* Edfa branch: every declared name maps to the entry without its alias list, reporting that name, all other
    fields equal to the declared entry *)
@@ -280,21 +471,23 @@ Example ex_alias_edfa :
   jhas "other_name" e = true /\ alias_names e = Ok ["a"; "b"; "std_medium_gain"]%string.
 Proof. vm_compute. repeat split. Qed.
 
-(* Transceiver branch, as the code is (finding F5): the entry assigned at step i reports the name assigned at
-   step i-1, the first one the entry's own type_variety ... *)
-Theorem C18_transceiver_reports : forall names cur,
-  map (fun p => jget "type_variety" (snd p)) (trx_loop cur names) =
-  match names with
-  | [] => []
-  | _ => jget "type_variety" cur :: map (fun n => Some (JStr n)) (removelast names)
-  end.
-Proof. exact trx_loop_reports. Qed.
-Print Assumptions C18_transceiver_reports.
+(* Transceiver branch (F5 fixed): the same entries as the Edfa branch, hence the same specification *)
+Theorem C18_alias_spec_transceiver : forall e names l,
+  jhas "other_name" e = true -> alias_names e = Ok names -> expand_trx e = Ok l ->
+  forall n, In n names ->
+    lookup_last n l = Some (alias_entry e n)
+    /\ jget "type_variety" (alias_entry e n) = Some (JStr n)
+    /\ jget "other_name" (alias_entry e n) = None
+    /\ (forall k, String.eqb k "type_variety" = false -> String.eqb k "other_name" = false ->
+                  jget k (alias_entry e n) = jget k e).
+Proof. exact alias_spec_trx. Qed.
+Print Assumptions C18_alias_spec_transceiver.
 
-(* ... so the alias specification is false of the faithful Transceiver model *)
-Theorem C18_alias_transceiver_refuted :
-  exists e names l n e',
-    jhas "other_name" e = true /\ alias_names e = Ok names /\ expand_trx e = Ok l /\ In n names /\
-    lookup_last n l = Some e' /\ jget "type_variety" e' <> Some (JStr n).
-Proof. exact alias_transceiver_refuted. Qed.
-Print Assumptions C18_alias_transceiver_refuted.
+Example ex_alias_trx :
+  let e := [("type_variety"%string, JStr "Voyager"); ("other_name"%string, JArr [JStr "aliasA"; JStr "aliasB"]);
+            ("frequency"%string, JObj [("min"%string, JNum 1913500000000000 1)])] in
+  jhas "other_name" e = true /\ alias_names e = Ok ["aliasA"; "aliasB"; "Voyager"]%string /\
+  exists l, expand_trx e = Ok l /\
+            map (fun n => option_map (jget "type_variety") (lookup_last n l)) ["aliasA"; "aliasB"; "Voyager"]%string
+            = [Some (Some (JStr "aliasA")); Some (Some (JStr "aliasB")); Some (Some (JStr "Voyager"))].
+Proof. cbn zeta. repeat split. eexists. split; vm_compute; reflexivity. Qed.
